@@ -520,6 +520,9 @@ Proof. intros Hin Hd. pose proof (dests_permitted E l d id evs Hin) as Hp. destr
 (* C11: non-Gateable events pass through unchanged and leave the filter untouched; events without an id are rejected *)
 Theorem non_gateable_identity E s : step E s NonGateable = (s, RPass).
 Proof. reflexivity. Qed.
+(* the other exported methods (Reopen, Type, Now) leave the gate alone *)
+Theorem other_methods_identity E s : step E s Other = (s, RNil).
+Proof. reflexivity. Qed.
 Theorem empty_id_rejected E s flush n rd tadd : step E s (Proc 0 flush n rd tadd) = (s, RErr).
 Proof. reflexivity. Qed.
 
@@ -564,7 +567,7 @@ Qed.
 (* ---------- sequential histories are particular atom lists ---------- *)
 Lemma step_atoms E o s : fst (step E s o) = fold_left (fun s a => fst (astep E s a)) (op_atoms E s o) s.
 Proof.
-  destruct o as [id flush n rd tadd| | |]; cbn [op_atoms step]; try reflexivity.
+  destruct o as [id flush n rd tadd| | | |]; cbn [op_atoms step]; try reflexivity.
   destruct (N.eqb id 0); [reflexivity|].
   destruct (astep E s (AExpire rd)) as [s1 r1] eqn:Ea. cbn [snd]. destruct (is_err r1); cbn [fold_left]; rewrite ?Ea; reflexivity.
 Qed.
@@ -597,7 +600,7 @@ Lemma adds_atoms_of E ops : forall s, exists f, adds (atoms_of E s ops) = map fs
 Proof.
   induction ops as [|o t IH]; intros s; [exists []; reflexivity|]. cbn [atoms_of procs].
   destruct (IH (fst (step E s o))) as [f Hf].
-  destruct o as [id flush n rd tadd| | |]; cbn [op_atoms app]; try (exists f; exact Hf).
+  destruct o as [id flush n rd tadd| | | |]; cbn [op_atoms app]; try (exists f; exact Hf).
   destruct (N.eqb id 0) eqn:Ei; [exists (false :: f); exact Hf|].
   destruct (is_err (snd (astep E s (AExpire rd)))); cbn [app adds]; [exists (false :: f); exact Hf|].
   rewrite Ei. exists (true :: f). cbn [combine filter snd map fst]. rewrite Hf. reflexivity.
@@ -956,7 +959,7 @@ Qed.
    free again when the call returns. *)
 Theorem gated_reentry_terminates E s o : lock_safe false (lock_trace E s o) = true.
 Proof.
-  destruct o as [id flush n rd tadd| | |]; cbn [lock_trace]; try reflexivity.
+  destruct o as [id flush n rd tadd| | | |]; cbn [lock_trace]; try reflexivity.
   - destruct (N.eqb id 0); [reflexivity|].
     destruct (astep_log_ext E s (AExpire rd)) as [n1 [L1 D1]]. rewrite (section_plain E s _ n1 L1 D1).
     destruct (is_err (snd (astep E s (AExpire rd)))); [reflexivity|].
